@@ -460,6 +460,9 @@ def run_out(ctx):
     unary = [("negative", None), ("absolute", None), ("isfinite", None)]
     for _ in range(3 if ctx.quick else 20):
         a, b = catalogue.build(catalogue.same_pair(rng, kind="int")) if hasattr(catalogue, "same_pair") else (P(rng), P(rng))
+        if rng.random() < .6 and a.shape == b.shape and a.size >= 2:
+            # some elements equal, some not: the verdict at equal elements may not come from the target's old content
+            b = numpoly.where(numpy.arange(a.size).reshape(a.shape) % 2 == 0, a, b)
         for name, iop in binary + unary:
             args = (a, b) if (name, iop) in binary else (a,)
             try:
@@ -470,6 +473,8 @@ def run_out(ctx):
             for label, call in (("numpoly.%s(out=)" % name, lambda t: getattr(numpoly, name)(*args, out=t)),
                                 ("numpy.%s(out=)" % name, lambda t: getattr(numpy, name)(*args, out=t))):
                 t = target_like(ref)
+                if not isinstance(t, numpoly.ndpoly) and t.dtype == bool:
+                    t[...] = bool(rng.integers(2))        # previous content of the target: all True or all False
                 try:
                     r = call(t)
                     results.append((label, "ok", catalogue.canon(r), catalogue.canon(t)))
